@@ -148,3 +148,22 @@ def allowed_lengths(facts, xdump: str, grid=range(0, 4)):
         elif flow.dump(a) == target:
             allowed = {n for n in allowed if (n > 0) is pol}
     return allowed
+
+
+def allowed_values(facts, target: str, grid=range(0, 4)):
+    """Values n (on a small grid) of the integer term whose text is `target` compatible with the path facts (comparisons of the
+    term with an integer literal, either order / polarity; truthiness of the term)."""
+    import operator
+    OPS = {ast.Eq: operator.eq, ast.NotEq: operator.ne, ast.Lt: operator.lt, ast.LtE: operator.le, ast.Gt: operator.gt, ast.GtE: operator.ge}
+    allowed = set(grid)
+    for a, pol in facts:
+        if isinstance(a, ast.Compare) and len(a.ops) == 1 and type(a.ops[0]) in OPS:
+            l, r = a.left, a.comparators[0]
+            f = OPS[type(a.ops[0])]
+            if flow.dump(l) == target and isinstance(r, ast.Constant) and isinstance(r.value, int):
+                allowed = {n for n in allowed if f(n, r.value) is pol}
+            elif flow.dump(r) == target and isinstance(l, ast.Constant) and isinstance(l.value, int):
+                allowed = {n for n in allowed if f(l.value, n) is pol}
+        elif flow.dump(a) == target:
+            allowed = {n for n in allowed if (n > 0) is pol}
+    return allowed
